@@ -7,6 +7,9 @@
 // The harness contains no expected values.
 #include "common.h"   // (own operator new below: sizes are needed, VH_DEFINE_NEW is not used)
 #include <cstdint>
+#include <fcntl.h>
+#include <sys/syscall.h>
+#include <unistd.h>
 
 namespace am {
 inline std::atomic<long> fa{0}, ff{0}, oa{0}, oab{0}, of{0}, ofb{0};
@@ -136,6 +139,7 @@ struct Ctx {
     std::optional<generator<int, int>> gens2[NG];
     long gkind[NG] = {};   // 0 none, 1 generator<int>, 2 generator<int,int>
     int garg = 0;
+    bool gtmp = false;
     suspend_point<void> slots[NS];
     CbSlot cbs[NC];
     std::vector<Event> events;
@@ -238,14 +242,17 @@ static suspend_point<void> cb_fn(awaiter *me, void *) noexcept {
 }
 
 // ---- helper threads for blocking waits ----
-enum { H_IDLE = 0, H_RUNNING = 1, H_BLOCKED = 2 };
+// A blocking wait really blocks: the helper passes the library's flag-wait hook (which only marks it H_INWAIT) and goes
+// into the library's own wait.  The main thread treats a helper as settled when it is idle again, or when it is inside
+// the wait AND the kernel reports the thread as sleeping (/proc/self/task/<tid>/stat state 'S') on consecutive polls:
+// everything the blocking thread allocates on its way to sleep (spin phases, parking structures) falls into the
+// measured step, and a wake-up issued by the current step has either not reached it (still 'S') or is waited for.
+enum { H_IDLE = 0, H_RUNNING = 1, H_INWAIT = 2 };
 struct Helper {
     std::thread th;
     std::atomic<int> cmd{0};     // 0 none, 1 run, 2 exit
     std::atomic<int> state{H_IDLE};
-    std::atomic<int> go{0};
-    bool (*pred)(void *) = nullptr;
-    void *pctx = nullptr;
+    std::atomic<long> tid{0};
     Ctx *c = nullptr;
     long kind = 0, obj = 0;
     bool has_ev = false;
@@ -254,22 +261,16 @@ struct Helper {
 static Helper g_helpers[NH];
 static thread_local int t_helper = -1;
 
-static void hook_block(const char *, bool (*pred)(void *), void *pctx) {
+static void hook_block(const char *, bool (*)(void *), void *) {
     if (t_helper < 0) return;
-    Helper &h = g_helpers[t_helper];
-    h.pred = pred;
-    h.pctx = pctx;
-    h.state.store(H_BLOCKED);
-    h.state.notify_all();
-    h.go.wait(0);
-    h.go.store(0);
-    h.state.store(H_RUNNING);
+    g_helpers[t_helper].state.store(H_INWAIT);
 }
 
 static void helper_main(int t) {
     t_helper = t;
-    coro_queue::install_queue_and_call([] {});   // thread-local queue warm-up
     Helper &h = g_helpers[t];
+    h.tid.store((long)syscall(SYS_gettid));
+    coro_queue::install_queue_and_call([] {});   // thread-local queue warm-up
     for (;;) {
         h.cmd.wait(0);
         int cmd = h.cmd.exchange(0);
@@ -280,8 +281,12 @@ static void helper_main(int t) {
             with_fut(c, h.obj, [&](auto &fut, auto &) {
                 using T = typename std::decay_t<decltype(fut)>::value_type;
                 try {
-                    if constexpr (std::is_void_v<T>) fut.wait();
-                    else val = to_long(fut.wait());
+                    if constexpr (std::is_void_v<T>) {
+                        if (t % 2) fut.join();
+                        else fut.wait();
+                    } else {
+                        val = (t % 2) ? to_long(fut.join()) : to_long(fut.wait());
+                    }
                 } catch (const await_canceled_exception &) {
                     out = 2;
                 } catch (...) {
@@ -290,8 +295,13 @@ static void helper_main(int t) {
             });
             h.ev = {1000 + t, out, val};
         } else {
-            mutex::ownership o = c.mx[h.obj].lock().wait();
-            c.own[h.obj] = std::move(o);
+            if (t % 2) {
+                mutex::ownership o(c.mx[h.obj].lock());   // blocking constructor flavour
+                c.own[h.obj] = std::move(o);
+            } else {
+                mutex::ownership o = c.mx[h.obj].lock().wait();
+                c.own[h.obj] = std::move(o);
+            }
             h.ev = {1000 + t, 3, 0};
         }
         h.has_ev = true;
@@ -300,11 +310,30 @@ static void helper_main(int t) {
     }
 }
 
-static void wait_parked(Helper &h) {
+static bool thread_sleeping(long tid) {
+    char path[64], buf[256];
+    std::snprintf(path, sizeof path, "/proc/self/task/%ld/stat", tid);
+    int fd = ::open(path, O_RDONLY);
+    if (fd < 0) return false;
+    ssize_t k = ::read(fd, buf, sizeof buf - 1);
+    ::close(fd);
+    if (k <= 0) return false;
+    buf[k] = 0;
+    const char *p = std::strrchr(buf, ')');
+    return p && p[1] == ' ' && p[2] == 'S';
+}
+
+static void quiesce(Helper &h) {
+    int asleep = 0;
     for (;;) {
         int s = h.state.load();
-        if (s != H_RUNNING) return;
-        h.state.wait(H_RUNNING);
+        if (s == H_IDLE) return;
+        if (s == H_INWAIT && thread_sleeping(h.tid.load())) {
+            if (++asleep >= 3 && h.state.load() == H_INWAIT) return;
+        } else {
+            asleep = 0;
+        }
+        ::usleep(100);
     }
 }
 
@@ -316,25 +345,12 @@ static void helper_run(Ctx &c, int t, long kind, long obj) {
     h.state.store(H_RUNNING);
     h.cmd.store(1);
     h.cmd.notify_all();
-    wait_parked(h);
+    quiesce(h);
 }
 
-// let every helper whose wait can return finish its operation; collect their reports in helper order
+// wait until every helper is idle or asleep inside its blocking wait; collect the reports in helper order
 static void settle(Ctx &c) {
-    bool progress = true;
-    while (progress) {
-        progress = false;
-        for (int t = 0; t < NH; t++) {
-            Helper &h = g_helpers[t];
-            if (h.state.load() == H_BLOCKED && h.pred(h.pctx)) {
-                h.state.store(H_RUNNING);
-                h.go.store(1);
-                h.go.notify_all();
-                wait_parked(h);
-                progress = true;
-            }
-        }
-    }
+    for (int t = 0; t < NH; t++) quiesce(g_helpers[t]);
     for (int t = 0; t < NH; t++) {
         Helper &h = g_helpers[t];
         if (h.has_ev && h.state.load() == H_IDLE) {
@@ -629,13 +645,15 @@ static Step begin(Ctx &c, const std::vector<long> &op) {
             c.gkind[g] = 1 + op[3];
             return st;
         }
-        case 21: {  // GNext g how arg
-            if (!arity(4) || !inr(op[1], NG) || !(inr(op[2], 2) || (op[2] == 2 && c.coro)) || !c.gkind[op[1]]) return rej();
-            long g = op[1], how = op[2];
+        case 21: {  // GNext g how arg   (how % 3: 0 next as bool, 1 gen() as future, 2 co_await next; how >= 3: temporary argument)
+            if (!arity(4) || !inr(op[1], NG) || !inr(op[2], 6) || !(inr(op[2] % 3, 2) || (op[2] % 3 == 2 && c.coro)) || !c.gkind[op[1]]) return rej();
+            long g = op[1], how = op[2] % 3;
+            bool tmp = op[2] >= 3;
             bool done = c.gkind[g] == 1 ? c.gens[g]->done() : c.gens2[g]->done();
             if (how == 1 && done) return rej();
             st.snap = am::snap();
             c.garg = (int)op[3];
+            c.gtmp = tmp;
             if (how == 2) {
                 c.await_gen = g;
             } else if (c.gkind[g] == 1) {
@@ -651,8 +669,12 @@ static Step begin(Ctx &c, const std::vector<long> &op) {
             } else {
                 generator<int, int> &gen = *c.gens2[g];
                 if (how == 0) {
-                    bool b = gen.next(c.garg);
+                    bool b = tmp ? (bool)gen.next(int(c.garg)) : (bool)gen.next(c.garg);
                     st.res = b ? gen.value() : -1;
+                } else if (tmp) {
+                    future<int> fut = gen(c.garg + 0);
+                    bool b = fut.has_value();
+                    st.res = b ? *fut : -1;
                 } else {
                     future<int> fut = gen(c.garg);
                     bool b = fut.has_value();
@@ -745,7 +767,7 @@ static vh::tco driver_coro(Ctx &c, const vh::Case &cs) {
                 st.res = b ? gen.value() : -1;
             } else {
                 generator<int, int> &gen = *c.gens2[g];
-                bool b = co_await gen.next(c.garg);
+                bool b = c.gtmp ? co_await gen.next(int(c.garg)) : co_await gen.next(c.garg);
                 st.res = b ? gen.value() : -1;
             }
         }
